@@ -14,6 +14,7 @@ EXACT_OPS = ["conv", "conv", "conv", "dw", "fc", "maxpool", "avgpool_valid", "ad
              "sslice", "split", "maximum", "minimum", "add_const", "mul_const", "padconv"]
 APPROX_TAIL_OPS = ["avgpool_same", "logistic", "tanh", "hswish", "lrelu", "softmax", "mean", "resize_nearest", "resize_bilinear", "abs", "tconv", "exp", "log", "sqrt", "rsqrt", "gelu", "prelu"]
 LUT_UNARY = {"exp": "EXP", "log": "LOG", "sqrt": "SQRT", "rsqrt": "RSQRT", "gelu": "GELU"}
+UNREFERENCED_NPU_OPS = ["sqdiff", "sqdiff", "shape"]  # accelerated operators without a reference kernel here: generated where values are not compared (C02/C03/C12/C13)
 CPU_OPS = ["custom", "dequant_quant", "float_chain", "gather", "tile", "argmax_tail", "unsupported_conv"]
 
 
@@ -254,7 +255,7 @@ class NB:
         ins = [x, other] if d(st.booleans()) else [other, x]
         if self.tensors[ins[0]]["shape"] != shape and code in ("SUB",) and self.profile == "exact" and False:
             ins = [x, other]
-        tab = {"ADD": "AddOptions", "SUB": "SubOptions", "MUL": "MulOptions", "MAXIMUM": "MaximumMinimumOptions", "MINIMUM": "MaximumMinimumOptions"}[code]
+        tab = {"ADD": "AddOptions", "SUB": "SubOptions", "MUL": "MulOptions", "MAXIMUM": "MaximumMinimumOptions", "MINIMUM": "MaximumMinimumOptions", "SQUARED_DIFFERENCE": "SquaredDifferenceOptions"}[code]
         fields = dict(FusedActivationFunction=ACT[self.act()]) if code in ("ADD", "SUB", "MUL") else {}
         self.op(code, ins, [o], tab, fields, version=2)
         return o
@@ -768,12 +769,12 @@ def network(profile="exact", max_ops=6, dtypes=("int8", "int8", "int8", "uint8",
             menu = ["add", "sub", "sub", "mul", "maximum", "minimum", "add_const", "mul_const", "sub_const", "relu", "quantize", "reshape"]
             n_ops = draw(st.integers(1, max_ops))
         if profile == "wide":
-            menu += APPROX_TAIL_OPS + CPU_OPS
+            menu += APPROX_TAIL_OPS + CPU_OPS + UNREFERENCED_NPU_OPS
         for i in range(n_ops):
             X = nb.info(cur)
             r4 = len(X["shape"]) == 4 and X["shape"][0] == 1
             last = i == n_ops - 1
-            kinds = menu + (APPROX_TAIL_OPS if (profile == "npu" and last) else [])
+            kinds = menu + (APPROX_TAIL_OPS + UNREFERENCED_NPU_OPS if (profile == "npu" and last) else [])
             if profile in ("npu", "wide") and not last:
                 kinds = kinds + ["custom"] if profile == "wide" else kinds
             kind = draw(st.sampled_from(kinds))
@@ -858,6 +859,14 @@ def network(profile="exact", max_ops=6, dtypes=("int8", "int8", "int8", "uint8",
                 cur = nb.softmax(cur)
             elif kind in ("logistic", "tanh", "hswish", "lrelu"):
                 cur = nb.act_lut(cur, {"logistic": "LOGISTIC", "tanh": "TANH", "hswish": "HARD_SWISH", "lrelu": "LEAKY_RELU"}[kind])
+            elif kind == "sqdiff":
+                other = [t for t in history[:-1] if nb.info(t)["shape"] == X["shape"] and nb.info(t)["dtype"] == X["dtype"]]
+                cur = nb.binary(cur, "SQUARED_DIFFERENCE", draw(st.sampled_from(other)) if other and draw(st.booleans()) else None)
+            elif kind == "shape":
+                # SHAPE of the current tensor (becomes a constant) as an extra model output; the chain continues unchanged
+                so = nb.t("shape_out", [len(X["shape"])], "int32")
+                nb.op("SHAPE", [cur], [so], "ShapeOptions", dict(OutType=2), version=1)
+                nb.extra_outputs = getattr(nb, "extra_outputs", []) + [so]
             elif kind == "prelu":
                 cur = nb.prelu(cur) if X["dtype"] != "int16" else nb.unary(cur, "RELU", same_q=True)
             elif kind in LUT_UNARY:
